@@ -99,6 +99,7 @@ def runProxy (op impl : String) : Ans :=
   match Px.parsePOp op with
   | none => { model := "bad-op", verdict := "skip" }
   | some p =>
+    if impl.startsWith "skip:" then { model := impl, verdict := "skip", tags := ["px", "px-env-skip"] } else
     let est := (impl.splitOn "est ").length - 1
     { model := Px.runPOp p
       verdict := Px.pVerdict p.scripts.length impl
